@@ -62,6 +62,17 @@ theorem step_preserves_MgrWf (db : Db) {m : Mgr} (hw : MgrWf m) (op : Op) : MgrW
   | getById id => rw [(step_query db m (op := .getById id) rfl).1]; exact hw
   | getUnitSystems => rw [(step_query db m (op := .getUnitSystems) rfl).1]; exact hw
   | getCurrent => rw [(step_query db m (op := .getCurrent) rfl).1]; exact hw
+  | sysEqOther a => rw [(step_query db m (op := .sysEqOther a) rfl).1]; exact hw
+  | register c u => exact step_aux_wf db hw (op := .register c u) rfl
+  | registerAgain i => exact step_aux_wf db hw (op := .registerAgain i) rfl
+  | kill i => exact step_aux_wf db hw (op := .kill i) rfl
+  | objSetUnit i u => exact step_aux_wf db hw (op := .objSetUnit i u) rfl
+  | updateObjects => exact step_aux_wf db hw (op := .updateObjects) rfl
+  | resetInstance => exact step_aux_wf db hw (op := .resetInstance) rfl
+  | observeCurrent => exact step_aux_wf db hw (op := .observeCurrent) rfl
+  | observeUnit => exact step_aux_wf db hw (op := .observeUnit) rfl
+  | setCaption a cap => exact step_aux_wf db hw (op := .setCaption a cap) rfl
+  | setReadOnly a b => exact step_aux_wf db hw (op := .setReadOnly a b) rfl
 
 theorem run_preserves_MgrWf (db : Db) (ops : List Op) {m : Mgr} (hw : MgrWf m) : MgrWf (run db m ops) := by
   induction ops generalizing m with
@@ -163,6 +174,17 @@ theorem step_preserves_MgrInv_partial (db : Db) {m : Mgr} (h : MgrInv m) (op : O
   | getById id => rw [(step_query db m (op := .getById id) rfl).1]; exact hcr
   | getUnitSystems => rw [(step_query db m (op := .getUnitSystems) rfl).1]; exact hcr
   | getCurrent => rw [(step_query db m (op := .getCurrent) rfl).1]; exact hcr
+  | sysEqOther a => rw [(step_query db m (op := .sysEqOther a) rfl).1]; exact hcr
+  | register c u => exact curRegistered_of_eq (step_aux db m (op := .register c u) rfl).1 (step_aux db m (op := .register c u) rfl).2.1 hcr
+  | registerAgain i => exact curRegistered_of_eq (step_aux db m (op := .registerAgain i) rfl).1 (step_aux db m (op := .registerAgain i) rfl).2.1 hcr
+  | kill i => exact curRegistered_of_eq (step_aux db m (op := .kill i) rfl).1 (step_aux db m (op := .kill i) rfl).2.1 hcr
+  | objSetUnit i u => exact curRegistered_of_eq (step_aux db m (op := .objSetUnit i u) rfl).1 (step_aux db m (op := .objSetUnit i u) rfl).2.1 hcr
+  | updateObjects => exact curRegistered_of_eq (step_aux db m (op := .updateObjects) rfl).1 (step_aux db m (op := .updateObjects) rfl).2.1 hcr
+  | resetInstance => exact curRegistered_of_eq (step_aux db m (op := .resetInstance) rfl).1 (step_aux db m (op := .resetInstance) rfl).2.1 hcr
+  | observeCurrent => exact curRegistered_of_eq (step_aux db m (op := .observeCurrent) rfl).1 (step_aux db m (op := .observeCurrent) rfl).2.1 hcr
+  | observeUnit => exact curRegistered_of_eq (step_aux db m (op := .observeUnit) rfl).1 (step_aux db m (op := .observeUnit) rfl).2.1 hcr
+  | setCaption a cap => exact curRegistered_of_eq (step_aux db m (op := .setCaption a cap) rfl).1 (step_aux db m (op := .setCaption a cap) rfl).2.1 hcr
+  | setReadOnly a b => exact curRegistered_of_eq (step_aux db m (op := .setReadOnly a b) rfl).1 (step_aux db m (op := .setReadOnly a b) rfl).2.1 hcr
 
 /-- a history in which every `SetCurrent` argument is `None` or a system registered at that moment -/
 def Guarded (db : Db) : Mgr → List Op → Prop
@@ -248,6 +270,17 @@ theorem rejected_step_id (db : Db) (m : Mgr) (op : Op) {e : ErrKind} (h : (step 
   | getById id => exact step_query db m (op := .getById id) rfl
   | getUnitSystems => exact step_query db m (op := .getUnitSystems) rfl
   | getCurrent => exact step_query db m (op := .getCurrent) rfl
+  | sysEqOther a => exact step_query db m (op := .sysEqOther a) rfl
+  | register c u => exact ⟨step_aux_rejected db m (op := .register c u) rfl h, (step_aux db m (op := .register c u) rfl).2.2.2⟩
+  | registerAgain i => exact ⟨step_aux_rejected db m (op := .registerAgain i) rfl h, (step_aux db m (op := .registerAgain i) rfl).2.2.2⟩
+  | kill i => exact ⟨step_aux_rejected db m (op := .kill i) rfl h, (step_aux db m (op := .kill i) rfl).2.2.2⟩
+  | objSetUnit i u => exact ⟨step_aux_rejected db m (op := .objSetUnit i u) rfl h, (step_aux db m (op := .objSetUnit i u) rfl).2.2.2⟩
+  | updateObjects => exact ⟨step_aux_rejected db m (op := .updateObjects) rfl h, (step_aux db m (op := .updateObjects) rfl).2.2.2⟩
+  | resetInstance => exact ⟨step_aux_rejected db m (op := .resetInstance) rfl h, (step_aux db m (op := .resetInstance) rfl).2.2.2⟩
+  | observeCurrent => exact ⟨step_aux_rejected db m (op := .observeCurrent) rfl h, (step_aux db m (op := .observeCurrent) rfl).2.2.2⟩
+  | observeUnit => exact ⟨step_aux_rejected db m (op := .observeUnit) rfl h, (step_aux db m (op := .observeUnit) rfl).2.2.2⟩
+  | setCaption a cap => exact ⟨step_aux_rejected db m (op := .setCaption a cap) rfl h, (step_aux db m (op := .setCaption a cap) rfl).2.2.2⟩
+  | setReadOnly a b => exact ⟨step_aux_rejected db m (op := .setReadOnly a b) rfl h, (step_aux db m (op := .setReadOnly a b) rfl).2.2.2⟩
 
 /-! ### acceptance decisions -/
 
@@ -512,6 +545,17 @@ theorem notify_exact (db : Db) {m : Mgr} (hw : MgrWf m) (op : Op) :
   | getById id => rw [(step_query db m (op := .getById id) rfl).2]; split <;> rfl
   | getUnitSystems => rw [(step_query db m (op := .getUnitSystems) rfl).2]; split <;> rfl
   | getCurrent => rw [(step_query db m (op := .getCurrent) rfl).2]; split <;> rfl
+  | sysEqOther a => rw [(step_query db m (op := .sysEqOther a) rfl).2]; split <;> rfl
+  | register c u => rw [(step_aux db m (op := .register c u) rfl).2.2.2]; split <;> rfl
+  | registerAgain i => rw [(step_aux db m (op := .registerAgain i) rfl).2.2.2]; split <;> rfl
+  | kill i => rw [(step_aux db m (op := .kill i) rfl).2.2.2]; split <;> rfl
+  | objSetUnit i u => rw [(step_aux db m (op := .objSetUnit i u) rfl).2.2.2]; split <;> rfl
+  | updateObjects => rw [(step_aux db m (op := .updateObjects) rfl).2.2.2]; split <;> rfl
+  | resetInstance => rw [(step_aux db m (op := .resetInstance) rfl).2.2.2]; split <;> rfl
+  | observeCurrent => rw [(step_aux db m (op := .observeCurrent) rfl).2.2.2]; split <;> rfl
+  | observeUnit => rw [(step_aux db m (op := .observeUnit) rfl).2.2.2]; split <;> rfl
+  | setCaption a cap => rw [(step_aux db m (op := .setCaption a cap) rfl).2.2.2]; split <;> rfl
+  | setReadOnly a b => rw [(step_aux db m (op := .setReadOnly a b) rfl).2.2.2]; split <;> rfl
 
 
 /-- **every change of the current system is notified**: whenever a call leaves `_current` different
@@ -568,6 +612,17 @@ theorem current_change_is_notified (db : Db) {m : Mgr} (hw : MgrWf m) (op : Op)
     | getById id => exact absurd (by rw [(step_query db m (op := .getById id) rfl).1]) hne
     | getUnitSystems => exact absurd (by rw [(step_query db m (op := .getUnitSystems) rfl).1]) hne
     | getCurrent => exact absurd (by rw [(step_query db m (op := .getCurrent) rfl).1]) hne
+    | sysEqOther a => exact absurd (by rw [(step_query db m (op := .sysEqOther a) rfl).1]) hne
+    | register c u => exact absurd (step_aux db m (op := .register c u) rfl).1 hne
+    | registerAgain i => exact absurd (step_aux db m (op := .registerAgain i) rfl).1 hne
+    | kill i => exact absurd (step_aux db m (op := .kill i) rfl).1 hne
+    | objSetUnit i u => exact absurd (step_aux db m (op := .objSetUnit i u) rfl).1 hne
+    | updateObjects => exact absurd (step_aux db m (op := .updateObjects) rfl).1 hne
+    | resetInstance => exact absurd (step_aux db m (op := .resetInstance) rfl).1 hne
+    | observeCurrent => exact absurd (step_aux db m (op := .observeCurrent) rfl).1 hne
+    | observeUnit => exact absurd (step_aux db m (op := .observeUnit) rfl).1 hne
+    | setCaption a cap => exact absurd (step_aux db m (op := .setCaption a cap) rfl).1 hne
+    | setReadOnly a b => exact absurd (step_aux db m (op := .setReadOnly a b) rfl).1 hne
 
 /-! ### default units, `ConvertToCurrent`, `GetNewId` -/
 
@@ -717,6 +772,17 @@ theorem step_preserves_DictsWf (db : Db) {m : Mgr} (hd : DictsWf m) (op : Op) : 
   | getById id => rw [(step_query db m (op := .getById id) rfl).1]; exact hd
   | getUnitSystems => rw [(step_query db m (op := .getUnitSystems) rfl).1]; exact hd
   | getCurrent => rw [(step_query db m (op := .getCurrent) rfl).1]; exact hd
+  | sysEqOther a => rw [(step_query db m (op := .sysEqOther a) rfl).1]; exact hd
+  | register c u => exact step_aux_dictsWf db hd (op := .register c u) rfl
+  | registerAgain i => exact step_aux_dictsWf db hd (op := .registerAgain i) rfl
+  | kill i => exact step_aux_dictsWf db hd (op := .kill i) rfl
+  | objSetUnit i u => exact step_aux_dictsWf db hd (op := .objSetUnit i u) rfl
+  | updateObjects => exact step_aux_dictsWf db hd (op := .updateObjects) rfl
+  | resetInstance => exact step_aux_dictsWf db hd (op := .resetInstance) rfl
+  | observeCurrent => exact step_aux_dictsWf db hd (op := .observeCurrent) rfl
+  | observeUnit => exact step_aux_dictsWf db hd (op := .observeUnit) rfl
+  | setCaption a cap => exact step_aux_dictsWf db hd (op := .setCaption a cap) rfl
+  | setReadOnly a b => exact step_aux_dictsWf db hd (op := .setReadOnly a b) rfl
 
 /-- after ANY history from a fresh manager -/
 theorem reachable_DictsWf (db : Db) (ops : List Op) : DictsWf (run db Mgr.init ops) := by
@@ -771,6 +837,507 @@ theorem removeCategory_absent (db : Db) {m : Mgr} {a : Nat} {o : USys} (ho : m.h
     simp only [step, removeCategory, ho, hh, Bool.false_eq_true, ↓reduceIte]
   rw [hstep]
   exact ⟨rfl, rfl, rfl⟩
+
+/-! ### value objects registered with the manager (`Register`, `UpdateObjects`, weak references) -/
+
+/-- every call keeps `_object_refs` clean: a live registered object has at least one wrap, an object
+that died has none left (its `_OnRefKilled` callbacks removed them all) -/
+theorem step_preserves_ObjsWf (db : Db) {m : Mgr} (h : ObjsWf m) (op : Op) : ObjsWf (step db m op).mgr := by
+  cases op with
+  | setTemplate mp =>
+    simp only [step, setTemplate]
+    split <;> exact h
+  | add id cap mp ro =>
+    simp only [step, addUnitSystem]
+    split
+    · exact h
+    · split
+      · exact h
+      · split
+        · exact setCurrent_objsWf (m := m.register _ _ _ _) h _
+        · exact h
+  | remove id =>
+    simp only [step, removeUnitSystem]
+    split
+    · exact h
+    · split
+      · exact setCurrent_objsWf (m := m.unregister id) h _
+      · exact h
+  | setCurrent a =>
+    cases a with
+    | none => exact setCurrent_objsWf h none
+    | some a =>
+      simp only [step]
+      split
+      · exact setCurrent_objsWf h (some a)
+      · exact h
+  | setDefaultUnit a c u =>
+    simp only [step, setDefaultUnit]
+    split <;> exact h
+  | removeCategory a c =>
+    simp only [step, removeCategory]
+    split
+    · exact h
+    · split <;> exact h
+  | getDefaultUnit a c => rw [(step_query db m (op := .getDefaultUnit a c) rfl).1]; exact h
+  | sysEq a b => rw [(step_query db m (op := .sysEq a b) rfl).1]; exact h
+  | convertToCurrent c u x => rw [(step_query db m (op := .convertToCurrent c u x) rfl).1]; exact h
+  | convertScalarToCurrent c u x => rw [(step_query db m (op := .convertScalarToCurrent c u x) rfl).1]; exact h
+  | getCategoryDefaultUnit c => rw [(step_query db m (op := .getCategoryDefaultUnit c) rfl).1]; exact h
+  | getQuantityDefaultUnit c u => rw [(step_query db m (op := .getQuantityDefaultUnit c u) rfl).1]; exact h
+  | getNewId => rw [(step_query db m (op := .getNewId) rfl).1]; exact h
+  | getById id => rw [(step_query db m (op := .getById id) rfl).1]; exact h
+  | getUnitSystems => rw [(step_query db m (op := .getUnitSystems) rfl).1]; exact h
+  | getCurrent => rw [(step_query db m (op := .getCurrent) rfl).1]; exact h
+  | sysEqOther a => rw [(step_query db m (op := .sysEqOther a) rfl).1]; exact h
+  | register c u => exact step_aux_objsWf db h (op := .register c u) rfl
+  | registerAgain i => exact step_aux_objsWf db h (op := .registerAgain i) rfl
+  | kill i => exact step_aux_objsWf db h (op := .kill i) rfl
+  | objSetUnit i u => exact step_aux_objsWf db h (op := .objSetUnit i u) rfl
+  | updateObjects => exact step_aux_objsWf db h (op := .updateObjects) rfl
+  | resetInstance => exact step_aux_objsWf db h (op := .resetInstance) rfl
+  | observeCurrent => exact step_aux_objsWf db h (op := .observeCurrent) rfl
+  | observeUnit => exact step_aux_objsWf db h (op := .observeUnit) rfl
+  | setCaption a cap => exact step_aux_objsWf db h (op := .setCaption a cap) rfl
+  | setReadOnly a b => exact step_aux_objsWf db h (op := .setReadOnly a b) rfl
+
+/-- after ANY history from a fresh manager no wrap of a dead object is left -/
+theorem reachable_ObjsWf (db : Db) (ops : List Op) : ObjsWf (run db Mgr.init ops) := by
+  have : ∀ (ops : List Op) (m : Mgr), ObjsWf m → ObjsWf (run db m ops) := by
+    intro ops
+    induction ops with
+    | nil => intro m h; exact h
+    | cons op ops ih => intro m h; exact ih _ (step_preserves_ObjsWf db h op)
+  exact this ops _ init_objsWf
+
+/-- the calls whose subject is a value object (or `UpdateObjects()` itself) -/
+def Op.isObjectOp : Op → Bool
+  | .register .. | .registerAgain .. | .kill .. | .objSetUnit .. | .updateObjects => true
+  | _ => false
+
+/-- **registered objects are updated exactly when `on_current` fires, and to what the new current system
+says**: for every call that is not itself about a value object — accepted or rejected — the objects
+afterwards are the objects before, each brought to the NEW current system if `on_current` was invoked
+during the call (nothing changes when that is the null system), and untouched otherwise.  In particular
+an `on_unit_changed` notification (`SetDefaultUnit` / `RemoveCategory` on the current system) does NOT
+reach the objects: the code calls `UpdateObjects` from `SetCurrent` only. -/
+theorem objects_follow_on_current (db : Db) {m : Mgr} (hw : MgrWf m) (op : Op) (hop : op.isObjectOp = false) :
+    (step db m op).mgr.objs =
+      if (step db m op).log.any Event.isCurrent then
+        m.objs.map (fun o => { o with unit := specUnit (step db m op).mgr o })
+      else m.objs := by
+  have hw' := step_preserves_MgrWf db hw op
+  cases op with
+  | setTemplate mp =>
+    apply follow_of_silent
+    · simp only [step, setTemplate]; split <;> rfl
+    · simp only [step, setTemplate]; split <;> rfl
+  | add id cap mp ro =>
+    by_cases h1 : regHas m.reg id = true
+    · apply follow_of_silent <;> simp [step, addUnitSystem, h1, Res.reject]
+    · have h1' : regHas m.reg id = false := by simpa using h1
+      cases h2 : resolveMapping m.tmpl mp with
+      | error e => apply follow_of_silent <;> simp [step, addUnitSystem, h1', h2, Res.reject]
+      | ok d =>
+        have hs := addUnitSystem_accepted (id := id) (cap := cap) (ro := ro) h1' h2
+        cases hc : m.cur with
+        | none =>
+          simp only [hc] at hs
+          exact follow_of_setCurrent (m0 := m.register id cap d ro) (x := some m.heap.length) hw' rfl
+            (by simp only [step]; rw [hs]) (by simp only [step]; rw [hs])
+        | some c =>
+          simp only [hc] at hs
+          apply follow_of_silent
+          · simp only [step]; rw [hs]; rfl
+          · simp only [step]; rw [hs]; rfl
+  | remove id =>
+    by_cases h1 : regHas m.reg id = true
+    · by_cases h2 : (m.cur.isSome && m.currentId == some id) = true
+      · exact follow_of_setCurrent (m0 := m.unregister id) (x := nextCurrent (m.unregister id).reg) hw' rfl
+          (by simp only [step, removeUnitSystem, h1, h2, Bool.not_true, Bool.false_eq_true, ↓reduceIte])
+          (by simp only [step, removeUnitSystem, h1, h2, Bool.not_true, Bool.false_eq_true, ↓reduceIte])
+      · apply follow_of_silent <;>
+          simp only [step, removeUnitSystem, h1, h2, Bool.not_true, Bool.false_eq_true, ↓reduceIte] <;> rfl
+    · have h1' : regHas m.reg id = false := by simpa using h1
+      apply follow_of_silent <;> simp [step, removeUnitSystem, h1', Res.reject]
+  | setCurrent a =>
+    cases a with
+    | none => exact follow_of_setCurrent (m0 := m) (x := none) hw' rfl rfl rfl
+    | some a =>
+      by_cases h : a < m.heap.length
+      · exact follow_of_setCurrent (m0 := m) (x := some a) hw' rfl
+          (by simp only [step, h, ↓reduceIte]) (by simp only [step, h, ↓reduceIte])
+      · apply follow_of_silent <;> simp [step, h, Res.reject]
+  | setDefaultUnit a c u =>
+    apply follow_of_silent
+    · simp only [step, setDefaultUnit]; split <;> rfl
+    · simp only [step, setDefaultUnit]
+      split
+      · rfl
+      · simp only [USys.fire]; split <;> rfl
+  | removeCategory a c =>
+    apply follow_of_silent
+    · simp only [step, removeCategory]
+      split
+      · rfl
+      · split <;> rfl
+    · simp only [step, removeCategory]
+      split
+      · rfl
+      · split
+        · simp only [USys.fire]; split <;> rfl
+        · rfl
+  | getDefaultUnit a c =>
+    apply follow_of_silent <;> simp [(step_query db m (op := .getDefaultUnit a c) rfl)]
+  | sysEq a b => apply follow_of_silent <;> simp [(step_query db m (op := .sysEq a b) rfl)]
+  | convertToCurrent c u x =>
+    apply follow_of_silent <;> simp [(step_query db m (op := .convertToCurrent c u x) rfl)]
+  | convertScalarToCurrent c u x =>
+    apply follow_of_silent <;> simp [(step_query db m (op := .convertScalarToCurrent c u x) rfl)]
+  | getCategoryDefaultUnit c =>
+    apply follow_of_silent <;> simp [(step_query db m (op := .getCategoryDefaultUnit c) rfl)]
+  | getQuantityDefaultUnit c u =>
+    apply follow_of_silent <;> simp [(step_query db m (op := .getQuantityDefaultUnit c u) rfl)]
+  | getNewId => apply follow_of_silent <;> simp [(step_query db m (op := .getNewId) rfl)]
+  | getById id => apply follow_of_silent <;> simp [(step_query db m (op := .getById id) rfl)]
+  | getUnitSystems => apply follow_of_silent <;> simp [(step_query db m (op := .getUnitSystems) rfl)]
+  | getCurrent => apply follow_of_silent <;> simp [(step_query db m (op := .getCurrent) rfl)]
+  | sysEqOther a => apply follow_of_silent <;> simp [(step_query db m (op := .sysEqOther a) rfl)]
+  | register c u => simp [Op.isObjectOp] at hop
+  | registerAgain i => simp [Op.isObjectOp] at hop
+  | kill i => simp [Op.isObjectOp] at hop
+  | objSetUnit i u => simp [Op.isObjectOp] at hop
+  | updateObjects => simp [Op.isObjectOp] at hop
+  | resetInstance => apply follow_of_silent <;> rfl
+  | observeCurrent => apply follow_of_silent <;> rfl
+  | observeUnit => apply follow_of_silent <;> rfl
+  | setCaption a cap =>
+    apply follow_of_silent
+    · simp only [step, setCaption]; split <;> rfl
+    · simp only [step, setCaption]; split <;> rfl
+  | setReadOnly a b =>
+    apply follow_of_silent
+    · simp only [step, setReadOnly]; split <;> rfl
+    · simp only [step, setReadOnly]; split <;> rfl
+
+/-- `Register(obj)` with an object the manager has not seen: it is remembered (one wrap) and brought to
+the current system at once; nothing else changes and no callback is invoked -/
+theorem register_spec (db : Db) {m : Mgr} (hw : MgrWf m) (c u : Sym) :
+    step db m (.register c u) =
+      ⟨{ m with objs := m.objs ++ [{ cat := c, unit := specUnit m ⟨c, u, 1, true⟩, wraps := 1, alive := true }] },
+       .ok .none, []⟩ := by
+  simp only [step, registerNew, refresh_curSys_spec hw]
+
+/-- `Register(obj)` of a live object again: one MORE wrap (the wraps are never merged), the object is
+brought to the current system, nothing else changes -/
+theorem registerAgain_spec (db : Db) {m : Mgr} (hw : MgrWf m) {i : Nat} {o : VObj} (ho : m.objs[i]? = some o)
+    (ha : o.alive = true) :
+    step db m (.registerAgain i) =
+      ⟨{ m with objs := m.objs.set i { o with unit := specUnit m o, wraps := o.wraps + 1 } }, .ok .none, []⟩ := by
+  have hsp : specUnit m { cat := o.cat, unit := o.unit, wraps := o.wraps + 1, alive := true } = specUnit m o := by
+    simp [specUnit, ha]
+  simp only [step, registerAgain, ho, ha, ↓reduceIte, refresh_curSys_spec hw, hsp]
+
+/-- a direct `UpdateObjects()` brings every object to the current system and does nothing else -/
+theorem updateObjects_spec (db : Db) {m : Mgr} (hw : MgrWf m) :
+    step db m .updateObjects =
+      ⟨{ m with objs := m.objs.map (fun o => { o with unit := specUnit m o }) }, .ok .none, []⟩ := by
+  have hfun : (fun o => ({ o with unit := specUnit m o } : VObj)) = VObj.refresh m.curSys := by
+    funext o; exact (refresh_curSys_spec hw o).symm
+  rw [hfun]
+  rfl
+
+/-- when the caller drops an object, all its wraps leave `_object_refs` and nothing else changes -/
+theorem kill_spec (db : Db) {m : Mgr} {i : Nat} {o : VObj} (ho : m.objs[i]? = some o) :
+    step db m (.kill i) = ⟨{ m with objs := m.objs.set i { o with wraps := 0, alive := false } }, .ok .none, []⟩ := by
+  simp only [step, killObj, ho]
+
+/-- **an object that died is dropped**: no call whatsoever changes anything about it afterwards -/
+theorem dead_object_is_never_touched (db : Db) {m : Mgr} (hw : MgrWf m) (hobj : ObjsWf m) (op : Op) {i : Nat}
+    {o : VObj} (hi : m.objs[i]? = some o) (hd : o.alive = false) : (step db m op).mgr.objs[i]? = some o := by
+  have hspec : ∀ m' : Mgr, ({ o with unit := specUnit m' o } : VObj) = o := by
+    intro m'; cases o; simp_all [specUnit]
+  have hrefresh : ∀ s, VObj.refresh s o = o := by
+    intro s
+    cases s with
+    | none => rfl
+    | some s => simp [VObj.refresh, VObj.update, hd]
+  have hilt : i < m.objs.length := by
+    rcases Nat.lt_or_ge i m.objs.length with h | h
+    · exact h
+    · rw [List.getElem?_eq_none h] at hi; cases hi
+  by_cases hop : op.isObjectOp = false
+  · rw [objects_follow_on_current db hw op hop]
+    split
+    · rw [List.getElem?_map, hi]; simp [hspec]
+    · exact hi
+  · cases op <;> simp only [Op.isObjectOp, not_true_eq_false] at hop
+    case register c u =>
+      simp only [step, registerNew]
+      rw [List.getElem?_append_left hilt]; exact hi
+    case registerAgain j =>
+      simp only [step, registerAgain]
+      split
+      · exact hi
+      · rename_i o' ho'
+        split
+        · rename_i hal
+          have hne : j ≠ i := by
+            intro e; subst e; rw [hi] at ho'; cases ho'; rw [hd] at hal; cases hal
+          simp only [List.getElem?_set_ne hne]; exact hi
+        · exact hi
+    case kill j =>
+      simp only [step, killObj]
+      split
+      · exact hi
+      · rename_i o' ho'
+        by_cases hji : j = i
+        · subst hji
+          rw [hi] at ho'; cases ho'
+          have hw0 : o.wraps = 0 := (hobj o (List.mem_of_getElem? hi)).2 hd
+          simp only [List.getElem?_set_self hilt]
+          cases o; simp_all
+        · simp only [List.getElem?_set_ne hji]; exact hi
+    case objSetUnit j u =>
+      simp only [step, objSetUnit]
+      split
+      · exact hi
+      · rename_i o' ho'
+        split
+        · rename_i hal
+          have hne : j ≠ i := by
+            intro e; subst e; rw [hi] at ho'; cases ho'; rw [hd] at hal; cases hal
+          simp only [List.getElem?_set_ne hne]; exact hi
+        · exact hi
+    case updateObjects =>
+      simp only [step, updateObjects_objs]
+      rw [List.getElem?_map, hi]; simp [hrefresh]
+
+/-- … and so after any further history -/
+theorem run_dead_object_is_never_touched (db : Db) (ops : List Op) {m : Mgr} (hw : MgrWf m) (hobj : ObjsWf m)
+    {i : Nat} {o : VObj} (hi : m.objs[i]? = some o) (hd : o.alive = false) : (run db m ops).objs[i]? = some o := by
+  induction ops generalizing m with
+  | nil => exact hi
+  | cons op ops ih =>
+    exact ih (step_preserves_MgrWf db hw op) (step_preserves_ObjsWf db hobj op)
+      (dead_object_is_never_touched db hw hobj op hi hd)
+
+/-- what the code does on a default-unit change: `SetDefaultUnit` / `RemoveCategory` — on the current
+system or on any other — leave every registered object as it is (only `on_unit_changed` is invoked) -/
+theorem default_unit_change_keeps_objects (db : Db) (m : Mgr) (a : Nat) (c u : Sym) :
+    (step db m (.setDefaultUnit a c u)).mgr.objs = m.objs ∧ (step db m (.removeCategory a c)).mgr.objs = m.objs := by
+  constructor
+  · simp only [step, setDefaultUnit]; split <;> rfl
+  · simp only [step, removeCategory]
+    split
+    · rfl
+    · split <;> rfl
+
+/-- … until the next `UpdateObjects()`: after `current.SetDefaultUnit(c, u)` for a non-empty category, a
+following `UpdateObjects()` gives `u` to every live object of category `c` -/
+theorem updateObjects_propagates_default (db : Db) {m : Mgr} (hw : MgrWf m) {a : Nat} (hc : m.cur = some a)
+    {c : Sym} (hc0 : c ≠ 0) (u : Sym) {i : Nat} {o : VObj} (hi : m.objs[i]? = some o) (hal : o.alive = true)
+    (hcat : o.cat = c) :
+    (run db m [.setDefaultUnit a c u, .updateObjects]).objs[i]? = some { o with unit := u } := by
+  have halt := hw.cur_valid a hc
+  have hs : m.heap[a]? = some m.heap[a] := List.getElem?_eq_getElem halt
+  have h1 : (step db m (.setDefaultUnit a c u)).mgr =
+      { m with heap := m.heap.set a { m.heap[a] with mapping := dset m.heap[a].mapping c u } } := by
+    simp only [step, setDefaultUnit, hs]
+  simp only [run]
+  rw [h1]
+  simp only [step, updateObjects_objs]
+  rw [List.getElem?_map, hi]
+  have hcur : ({ m with heap := m.heap.set a { m.heap[a] with mapping := dset m.heap[a].mapping c u } } : Mgr).curSys
+      = some { m.heap[a] with mapping := dset m.heap[a].mapping c u } := by
+    simp [Mgr.curSys, hc, halt]
+  rw [hcur]
+  have hc0' : (c == 0) = false := by simpa using hc0
+  simp [VObj.refresh, VObj.update, hal, hcat, USys.getDefaultUnit, hc0', dget_dset_self]
+
+/-- right after a `SetCurrent` the objects are up to date: a direct `UpdateObjects()` changes nothing -/
+theorem updateObjects_after_setCurrent_id (m : Mgr) (x : Option Nat) :
+    updateObjects (setCurrent m x).1 = (setCurrent m x).1 := by
+  have h : (setCurrent m x).1.objs.map (VObj.refresh (setCurrent m x).1.curSys) = (setCurrent m x).1.objs := by
+    rw [setCurrent_objs, List.map_map]
+    apply List.map_congr_left
+    intro o _
+    exact refresh_idem _ o
+  unfold updateObjects
+  rw [h]
+
+/-! ### observers: `ResetInstance` and what a listener receives -/
+
+/-- `ResetInstance()` unregisters the listeners of both callbacks of the manager and nothing else: the
+registry, the current system, the manager's own listener on the current system, the template and the
+registered objects stay -/
+theorem resetInstance_spec (db : Db) (m : Mgr) :
+    step db m .resetInstance = ⟨{ m with obsCur := false, obsUnit := false }, .ok .none, []⟩ := rfl
+
+/-- **what an observer receives** of a call is the part of the prescribed notifications (`specLog`, see
+`notify_exact`) whose callback it is registered on; nothing for a rejected call -/
+theorem seen_exact (db : Db) {m : Mgr} (hw : MgrWf m) (op : Op) :
+    seen m (step db m op).log =
+      match (step db m op).out with
+      | .ok _ => seen m (specLog m (step db m op).mgr op)
+      | .error _ => [] := by
+  rw [notify_exact db hw op]
+  split <;> rfl
+
+/-- registered on both callbacks, the observer receives every invocation -/
+theorem seen_all_of_observed {m : Mgr} (h1 : m.obsCur = true) (h2 : m.obsUnit = true) (l : List Event) :
+    seen m l = l := by
+  unfold seen
+  rw [List.filter_eq_self]
+  intro e _
+  cases e <;> simp [Event.seenBy, h1, h2]
+
+/-- registered on neither, it receives nothing -/
+theorem seen_nil_of_unobserved {m : Mgr} (h1 : m.obsCur = false) (h2 : m.obsUnit = false) (l : List Event) :
+    seen m l = [] := by
+  unfold seen
+  rw [List.filter_eq_nil_iff]
+  intro e _
+  cases e <;> simp [Event.seenBy, h1, h2]
+
+/-- the calls that register or unregister observers -/
+def Op.isObserverOp : Op → Bool
+  | .resetInstance | .observeCurrent | .observeUnit => true
+  | _ => false
+
+/-- no other call registers or unregisters a listener of the manager's callbacks -/
+theorem observers_frame (db : Db) (m : Mgr) (op : Op) (hop : op.isObserverOp = false) :
+    (step db m op).mgr.obsCur = m.obsCur ∧ (step db m op).mgr.obsUnit = m.obsUnit := by
+  cases op with
+  | setTemplate mp => simp only [step, setTemplate]; split <;> exact ⟨rfl, rfl⟩
+  | add id cap mp ro =>
+    simp only [step, addUnitSystem]
+    split
+    · exact ⟨rfl, rfl⟩
+    · split
+      · exact ⟨rfl, rfl⟩
+      · split
+        · exact ⟨setCurrent_obsCur _ _, setCurrent_obsUnit _ _⟩
+        · exact ⟨rfl, rfl⟩
+  | remove id =>
+    simp only [step, removeUnitSystem]
+    split
+    · exact ⟨rfl, rfl⟩
+    · split
+      · exact ⟨setCurrent_obsCur _ _, setCurrent_obsUnit _ _⟩
+      · exact ⟨rfl, rfl⟩
+  | setCurrent a =>
+    cases a with
+    | none => exact ⟨setCurrent_obsCur _ _, setCurrent_obsUnit _ _⟩
+    | some a =>
+      simp only [step]
+      split
+      · exact ⟨setCurrent_obsCur _ _, setCurrent_obsUnit _ _⟩
+      · exact ⟨rfl, rfl⟩
+  | setDefaultUnit a c u => simp only [step, setDefaultUnit]; split <;> exact ⟨rfl, rfl⟩
+  | removeCategory a c =>
+    simp only [step, removeCategory]
+    split
+    · exact ⟨rfl, rfl⟩
+    · split <;> exact ⟨rfl, rfl⟩
+  | getDefaultUnit a c => rw [(step_query db m (op := .getDefaultUnit a c) rfl).1]; exact ⟨rfl, rfl⟩
+  | sysEq a b => rw [(step_query db m (op := .sysEq a b) rfl).1]; exact ⟨rfl, rfl⟩
+  | convertToCurrent c u x => rw [(step_query db m (op := .convertToCurrent c u x) rfl).1]; exact ⟨rfl, rfl⟩
+  | convertScalarToCurrent c u x =>
+    rw [(step_query db m (op := .convertScalarToCurrent c u x) rfl).1]; exact ⟨rfl, rfl⟩
+  | getCategoryDefaultUnit c => rw [(step_query db m (op := .getCategoryDefaultUnit c) rfl).1]; exact ⟨rfl, rfl⟩
+  | getQuantityDefaultUnit c u => rw [(step_query db m (op := .getQuantityDefaultUnit c u) rfl).1]; exact ⟨rfl, rfl⟩
+  | getNewId => rw [(step_query db m (op := .getNewId) rfl).1]; exact ⟨rfl, rfl⟩
+  | getById id => rw [(step_query db m (op := .getById id) rfl).1]; exact ⟨rfl, rfl⟩
+  | getUnitSystems => rw [(step_query db m (op := .getUnitSystems) rfl).1]; exact ⟨rfl, rfl⟩
+  | getCurrent => rw [(step_query db m (op := .getCurrent) rfl).1]; exact ⟨rfl, rfl⟩
+  | sysEqOther a => rw [(step_query db m (op := .sysEqOther a) rfl).1]; exact ⟨rfl, rfl⟩
+  | register c u => exact ⟨rfl, rfl⟩
+  | registerAgain i =>
+    simp only [step, registerAgain]
+    split
+    · exact ⟨rfl, rfl⟩
+    · split <;> exact ⟨rfl, rfl⟩
+  | kill i => simp only [step, killObj]; split <;> exact ⟨rfl, rfl⟩
+  | objSetUnit i u =>
+    simp only [step, objSetUnit]
+    split
+    · exact ⟨rfl, rfl⟩
+    · split <;> exact ⟨rfl, rfl⟩
+  | updateObjects => exact ⟨rfl, rfl⟩
+  | resetInstance => simp [Op.isObserverOp] at hop
+  | observeCurrent => simp [Op.isObserverOp] at hop
+  | observeUnit => simp [Op.isObserverOp] at hop
+  | setCaption a cap => simp only [step, setCaption]; split <;> exact ⟨rfl, rfl⟩
+  | setReadOnly a b => simp only [step, setReadOnly]; split <;> exact ⟨rfl, rfl⟩
+
+/-- **after `ResetInstance()` an observer receives nothing** — whatever happens to the manager — until
+it registers again -/
+theorem reset_silences (db : Db) (m : Mgr) (ops : List Op)
+    (hno : ∀ op ∈ ops, op.isObserverOp = false) : runSeen db (step db m .resetInstance).mgr ops = [] := by
+  have : ∀ (ops : List Op) (m' : Mgr), m'.obsCur = false → m'.obsUnit = false →
+      (∀ op ∈ ops, op.isObserverOp = false) → runSeen db m' ops = [] := by
+    intro ops
+    induction ops with
+    | nil => intro _ _ _ _; rfl
+    | cons op ops ih =>
+      intro m' h1 h2 hn
+      have hf := observers_frame db m' op (hn op (by simp))
+      simp only [runSeen, seen_nil_of_unobserved h1 h2, List.nil_append]
+      exact ih _ (hf.1.trans h1) (hf.2.trans h2) (fun o ho => hn o (by simp [ho]))
+  exact this ops _ rfl rfl hno
+
+/-! ### caption and read-only flag of a unit system -/
+
+/-- `system.SetCaption(caption)` changes that one field of that one object; nobody is notified -/
+theorem setCaption_frame (db : Db) {m : Mgr} {a : Nat} {o : USys} (ho : m.heap[a]? = some o) (cap : Sym) :
+    step db m (.setCaption a cap) = ⟨{ m with heap := m.heap.set a { o with caption := cap } }, .ok .none, []⟩ := by
+  simp only [step, setCaption, ho]
+
+/-- `system.SetReadOnly(flag)` changes that one field of that one object; nobody is notified -/
+theorem setReadOnly_frame (db : Db) {m : Mgr} {a : Nat} {o : USys} (ho : m.heap[a]? = some o) (b : Bool) :
+    step db m (.setReadOnly a b) = ⟨{ m with heap := m.heap.set a { o with readOnly := b } }, .ok .none, []⟩ := by
+  simp only [step, setReadOnly, ho]
+
+/-- what the code does with the flag: nothing.  A read-only system (the null system included) accepts
+`SetDefaultUnit` and `RemoveCategory` like any other, and its mapping changes -/
+theorem readOnly_is_not_enforced (db : Db) {m : Mgr} {a : Nat} {o : USys} (ho : m.heap[a]? = some o)
+    (_hro : o.readOnly = true) (c u : Sym) :
+    (step db m (.setDefaultUnit a c u)).out = .ok .none ∧
+    (step db m (.setDefaultUnit a c u)).mgr.heap[a]? = some { o with mapping := dset o.mapping c u } ∧
+    (step db m (.removeCategory a c)).out = .ok .none ∧
+    (step db m (.removeCategory a c)).mgr.heap[a]? =
+      some (if dhas o.mapping c then { o with mapping := derase o.mapping c } else o) := by
+  have halt : a < m.heap.length := by
+    rcases Nat.lt_or_ge a m.heap.length with h' | h'
+    · exact h'
+    · rw [List.getElem?_eq_none h'] at ho; cases ho
+  have h := setDefaultUnit_frame db ho c u
+  refine ⟨h.1, h.2.1, ?_, ?_⟩
+  · simp only [step, removeCategory, ho]; split <;> rfl
+  · simp only [step, removeCategory, ho]
+    split
+    · simp [halt]
+    · simpa [Res.answer] using ho
+
+/-! ### the error classes of the module -/
+
+/-- a rejected `SetTemplateUnitSystemByUnitsMapping` is an `InvalidTemplateError` (a `RuntimeError`) that
+NAMES at least one registered system: the message branch for an empty list (unit_system_manager.py line
+56) cannot be reached through the manager; and no call raises `NoTemplateError`
+(`add_rejected_is_key_error`: a missing template is not an error, lines 36-37) -/
+theorem template_rejected_names_a_system (db : Db) (m : Mgr) (mp : List (Sym × Sym)) {e : ErrKind}
+    (h : (step db m (.setTemplate mp)).out = .error e) : e = .runtime ∧ invalidSystems m (dkeys mp) ≠ [] := by
+  simp only [step, setTemplate] at h
+  split at h
+  · cases h
+  · rename_i hc
+    simp only [Res.reject] at h
+    cases h
+    refine ⟨rfl, ?_⟩
+    intro hnil
+    rw [hnil] at hc
+    exact hc rfl
 
 /-! ### non-vacuity: concrete histories meet the hypotheses above
 
